@@ -119,6 +119,14 @@ def param_query(rng, named):
         lambda: ir.bin_('in', i, ir.subq(ir.Query(targets=[ir.Target(ir.col('j', T_INT))], table='t',
                                                  where=ir.bin_('gt', ir.col('j', T_INT), P(T_INT), T_BOOL))), T_BOOL),
         lambda: ir.and_(ir.bin_('gt', i, P(T_INT), T_BOOL), ir.bin_('le', j, P(T_INT), T_BOOL)),
+        # a boolean placeholder beside operands that are NULL on some rows: AND stops at the first NULL or false operand,
+        # wherever the constant stands
+        lambda: ir.and_(ir.col('b', T_BOOL), P(T_BOOL)),
+        lambda: ir.and_(ir.col('b', T_BOOL), ir.col('c', T_BOOL), P(T_BOOL, False)),
+        lambda: ir.and_(P(T_BOOL), ir.col('c', T_BOOL)),
+        lambda: ir.or_(ir.col('b', T_BOOL), P(T_BOOL)),
+        lambda: ir.or_(P(T_BOOL, True), ir.col('b', T_BOOL), ir.col('c', T_BOOL)),
+        lambda: ir.un('isnull', ir.and_(ir.bin_('gt', i, P(T_INT), T_BOOL), P(T_BOOL, False)), T_BOOL),
     ]
     targets = [ir.Target(ir.col('k', T_INT))]
     for n in range(rng.randint(1, 3)):
